@@ -27,7 +27,8 @@ import (
 //
 // Where the documentation leaves the meaning open, the case gets NO verdict (noVerdict, counted as inconclusive):
 //   - "holds throughout W" is read as "one stored interval contains W"; on data that is not coalesced (derived
-//     facts are stored as they are derived) an atom may hold throughout W without one interval containing it;
+//     facts are stored as they are derived; base atoms with intervals sharing a start) an atom may hold
+//     throughout W without one interval containing it;
 //   - the point form p(..)@[T] with fresh T meeting an interval that is not a single instant (the tree binds T
 //     to the start; "bind both start and end to the same variable" matches no such interval);
 //   - an annotation whose variables are already bound: "enumerates the stored intervals" (equality) and "holds
@@ -386,7 +387,34 @@ func (r *refResult) solveTemporal(l Lit, e env, emit func(env)) {
 	if l.MS {
 		r.labels["window-in-ms"] = true
 	}
+	if l.Ann != nil {
+		r.labels["operator-binds-interval"] = true
+	}
 	for _, c := range cands {
+		if ivs := r.intervalsOf(c.f.key); len(ivs) >= 6 {
+			r.labels["operator-over-dense-atom"] = true
+			met := 0
+			for _, iv := range ivs {
+				if meets(iv[0], iv[1], wlo, whi) {
+					met++
+				}
+			}
+			if met == 1 {
+				r.labels["window-meets-one-interval-of-dense-atom"] = true
+				r.nontrivial = true
+			}
+		} else if c.f.lo == whi || c.f.lo == wlo {
+			for _, iv := range ivs {
+				if iv[0] == c.f.lo && iv[1] != c.f.hi {
+					if c.f.lo == whi {
+						r.labels["window-ends-on-shared-start"] = true
+					} else {
+						r.labels["window-starts-on-shared-start"] = true
+					}
+					r.nontrivial = true
+				}
+			}
+		}
 		if c.f.lo == wlo || c.f.lo == whi || c.f.hi == wlo || c.f.hi == whi {
 			r.labels["window-end-on-interval-end"] = true
 			r.nontrivial = true
@@ -488,6 +516,37 @@ func (r *refResult) headInterval(a *Ann, e env) (lo, hi int64, ok bool) {
 	return lo, hi, true
 }
 
+// noteBaseShape labels dense atoms (>= 6 intervals, and whether they were inserted in ascending order) and
+// atoms with intervals that share a start or overlap otherwise (base data that is not coalesced).
+func (r *refResult) noteBaseShape() {
+	seen := map[string]bool{}
+	for _, k := range r.tOrder {
+		key := r.temporal[k].key
+		if seen[key] {
+			continue
+		}
+		seen[key] = true
+		ivs := r.intervalsOf(key)
+		if len(ivs) >= 6 {
+			r.labels["base-dense-atom"] = true
+			for i := 1; i < len(ivs); i++ {
+				if ivs[i][0] < ivs[i-1][0] {
+					r.labels["base-dense-atom-shuffled"] = true
+				}
+			}
+		}
+		for i := range ivs {
+			for j := range ivs {
+				if i < j && ivs[i][0] == ivs[j][0] {
+					r.labels["base-shared-start"] = true
+				} else if i < j && meets(ivs[i][0], ivs[i][1], ivs[j][0], ivs[j][1]) {
+					r.labels["base-overlapping"] = true
+				}
+			}
+		}
+	}
+}
+
 func evalRef(c Case) *refResult {
 	r := &refResult{c: c, temporal: map[string]refFact{}, plain: map[string]refFact{}, labels: map[string]bool{}}
 	for _, f := range c.Temporal {
@@ -503,6 +562,7 @@ func evalRef(c Case) *refResult {
 	for _, f := range c.Plain {
 		r.addPlain(f.Pred, numArgs(f.Args))
 	}
+	r.noteBaseShape()
 	baseT, baseP := len(r.tOrder), len(r.pOrder)
 	if len(c.Rules) == 2 {
 		r.labels["two-rules"] = true
